@@ -7,7 +7,12 @@ cd /verif
 for s in $SEEDS; do
   for p in $PROPS; do
     t0=$(date +%s)
-    VERIF_SEED=$s VERIF_EVIDENCE_DIR=/tmp/quiet_ev_$s VERIF_OUT_DIR=/tmp/quiet_out_$s /venv/bin/python -m vp.check $p --tier quick > /tmp/quiet_${p}_$s.log 2>&1
+    if [ "$s" = "1" ]; then
+      # seed 1 is the registered default: this run writes the committed evidence file
+      VERIF_SEED=$s /venv/bin/python -m vp.check $p --tier quick > /tmp/quiet_${p}_$s.log 2>&1
+    else
+      VERIF_SEED=$s VERIF_EVIDENCE_DIR=/tmp/quiet_ev_$s VERIF_OUT_DIR=/tmp/quiet_out_$s /venv/bin/python -m vp.check $p --tier quick > /tmp/quiet_${p}_$s.log 2>&1
+    fi
     rc=$?
     echo "seed=$s $p exit=$rc $(( $(date +%s) - t0 ))s $(grep -c '^VIOLATION' /tmp/quiet_${p}_$s.log) violations $(grep -c '^KNOWN-FINDING' /tmp/quiet_${p}_$s.log) known"
   done
